@@ -208,4 +208,183 @@ theorem Good.smConnect (h : Good jid U NR c) (d : Bytes) (t : CType)
     · obtain ⟨p, _, hi⟩ := h
       exact absurd (hi.cfg.hsm hd) hs
 
+theorem Good.setFlags (h : Good jid U NR c) (f : Nat) : Good jid U NR (Conn.setFlags c f).1 := by
+  unfold Conn.setFlags; dsimp only
+  split
+  · exact h
+  · split
+    · exact h
+    · split <;> exact h.frame (fun _ hi => ⟨hi.cfg, hi.q, hi.e, hi.gg, hi.h, hi.f, hi.ts⟩)
+
+theorem setFlags_frame (c : Conn) (f : Nat) :
+    (setFlags c f).1.jid = c.jid ∧ (setFlags c f).1.hasSm = c.hasSm ∧ (setFlags c f).1.state = c.state := by
+  unfold setFlags; dsimp only
+  split
+  · exact ⟨rfl, rfl, rfl⟩
+  · split
+    · exact ⟨rfl, rfl, rfl⟩
+    · split <;> exact ⟨rfl, rfl, rfl⟩
+
+def ccBody (cc : Conn) (j : Bytes) : Conn × Int :=
+  if (Jid.domain j).head? = none ∨ (Jid.domain j).head? = some 46 then (cc, xmppEInvOp) else
+  connConnect (if cc.hasSm then cc else { cc with hasSm := true, sm := {} }) (Jid.domain j) .client
+
+theorem connectClient_some (cc : Conn) (j : Bytes) (hj : cc.jid = some j) : connectClient cc = ccBody cc j := by
+  unfold connectClient ccBody; rw [hj]
+
+theorem connectClient_none (cc : Conn) (hj : cc.jid = none) : connectClient cc = (cc, xmppEInvOp) := by
+  unfold connectClient; rw [hj]
+
+theorem Good.connectClient (h : Good jid U NR c) : Good jid U NR (Conn.connectClient c).1 := by
+  rcases Option.eq_none_or_eq_some c.jid with hj | ⟨j, hj⟩
+  · rw [connectClient_none c hj]; exact h
+  · rw [connectClient_some c j hj]; unfold ccBody
+    split
+    · exact h
+    · exact h.smConnect _ _ ⟨j, by rw [← h.jidEq, hj], (if_neg (show ¬ CType.client = CType.component by decide)).symm⟩
+
+theorem connectComponent_eq (c : Conn) : connectComponent c =
+      (if c.jid.isNone || c.pass.isNone then (c, xmppEInvOp)
+       else if !(setFlags c (getFlags c ||| Gen.flagDisableTls)).1.tlsDisabled
+         then ((setFlags c (getFlags c ||| Gen.flagDisableTls)).1, xmppEInt)
+       else connConnect
+         (if (setFlags c (getFlags c ||| Gen.flagDisableTls)).1.hasSm then (setFlags c (getFlags c ||| Gen.flagDisableTls)).1
+          else { (setFlags c (getFlags c ||| Gen.flagDisableTls)).1 with hasSm := true, sm := {} })
+         ((if (setFlags c (getFlags c ||| Gen.flagDisableTls)).1.hasSm then (setFlags c (getFlags c ||| Gen.flagDisableTls)).1
+          else { (setFlags c (getFlags c ||| Gen.flagDisableTls)).1 with hasSm := true, sm := {} }).jid.getD []) .component) := rfl
+
+theorem Good.connectComponent (h : Good jid U NR c) : Good jid U NR (Conn.connectComponent c).1 := by
+  rw [connectComponent_eq]
+  have h1 := h.setFlags (getFlags c ||| Gen.flagDisableTls)
+  obtain ⟨f1, _, _⟩ := setFlags_frame c (getFlags c ||| Gen.flagDisableTls)
+  split
+  · exact h
+  · rename_i hn
+    split
+    · exact h1
+    · generalize (Conn.setFlags c (getFlags c ||| Gen.flagDisableTls)).1 = c1 at h1 f1 ⊢
+      rcases Option.eq_none_or_eq_some c.jid with hj | ⟨j, hj⟩
+      · rw [hj] at hn; simp at hn
+      · have hj1 : c1.jid = some j := by rw [f1, hj]
+        have hd : (if c1.hasSm = true then c1 else { c1 with hasSm := true, sm := {} }).jid.getD [] = j := by
+          split <;> simp [hj1]
+        rw [hd]
+        exact h1.smConnect j .component ⟨j, by rw [← h.jidEq, hj], (if_pos rfl).symm⟩
+
+theorem connectRaw_eq (c : Conn) :
+    connectRaw c =
+      (if c.state ≠ .disconnected then (c, xmppEInvOp)
+       else if (connectClient { c with isRaw := true }).2 ≠ 0
+         then ({ (connectClient { c with isRaw := true }).1 with isRaw := false }, (connectClient { c with isRaw := true }).2)
+         else ((connectClient { c with isRaw := true }).1, (connectClient { c with isRaw := true }).2)) := rfl
+
+theorem Good.connectRaw (h : Good jid U NR c) : Good jid U NR (Conn.connectRaw c).1 := by
+  rw [connectRaw_eq]
+  split
+  · exact h
+  · rename_i hd
+    have hd : c.state = .disconnected := by
+      cases hs : c.state <;> simp_all
+    have hraw := h.rawFalse hd
+    rcases Option.eq_none_or_eq_some c.jid with hj | ⟨j, hj⟩
+    · rw [connectClient_none { c with isRaw := true } hj]
+      rw [if_pos (by simp [xmppEInvOp])]; exact h.setRawFalse hraw
+    · rw [connectClient_some { c with isRaw := true } j hj]
+      unfold ccBody
+      split
+      · rw [if_pos (by simp [xmppEInvOp])]; exact h.setRawFalse hraw
+      · have hdom : ∃ j', jid = some j' ∧ Jid.domain j = (if CType.client = .component then j' else Jid.domain j') :=
+          ⟨j, by rw [← h.jidEq, hj], (if_neg (show ¬ CType.client = CType.component by decide)).symm⟩
+        by_cases hs : c.hasSm = true
+        · rw [if_pos (show ({ c with isRaw := true } : Conn).hasSm = true from hs)]
+          have core := h.connConnect hd hs true (Jid.domain j) .client hdom
+          split
+          · rename_i hrc; exact core.2 hrc
+          · rename_i hrc; exact core.1 (by simpa using hrc)
+        · rw [if_neg (show ¬ ({ c with isRaw := true } : Conn).hasSm = true from hs)]
+          have core := (h.freshSm hd).connConnect hd rfl true (Jid.domain j) .client hdom
+          split
+          · rename_i hrc; exact core.2 hrc
+          · rename_i hrc; exact core.1 (by simpa using hrc)
+
+/-! ### `step`, `exec`, `fresh` -/
+
+/-- what a history may contain: the application submits items in `U`; `xmpp_send_raw` only if `¬ NR` -/
+def OpOk (U : Item → Prop) (NR : Prop) : Op → Prop
+  | .usend it => U it
+  | .urawstr it => U it
+  | .uraw it => U it ∧ ¬ NR
+  | _ => True
+
+theorem Good.step (h : Good jid U NR c) (op : Op) (hop : OpOk U NR op) : Good jid U NR (Conn.step c op) := by
+  have fr : ∀ {c' : Conn}, (∀ p, Inv jid U NR p c → Inv jid U NR p c') → Good jid U NR c' := fun e => h.frame e
+  cases op with
+  | connect k =>
+    cases k with
+    | client => exact h.connectClient
+    | component => exact h.connectComponent
+    | raw => exact h.connectRaw
+  | run rx => exact h.runOnce rx
+  | setTcp f e => exact fr (fun _ hi => ⟨hi.cfg, hi.q, hi.e, hi.gg, hi.h, hi.f, hi.ts⟩)
+  | setTls a b' => exact fr (fun _ hi => ⟨hi.cfg, hi.q, hi.e, hi.gg, hi.h, hi.f, hi.ts⟩)
+  | setSched l d => exact fr (fun _ hi => ⟨hi.cfg, hi.q, hi.e, hi.gg, hi.h, hi.f, hi.ts⟩)
+  | tick ms => exact fr (fun _ hi => ⟨hi.cfg, hi.q, hi.e, hi.gg, hi.h, hi.f, hi.ts⟩)
+  | setSmCallback => exact fr (fun _ hi => ⟨hi.cfg, hi.q, hi.e, hi.gg, hi.h, hi.f, hi.ts⟩)
+  | usend it =>
+    show Good jid U NR (Conn.sendStanza c it .user)
+    unfold Conn.sendStanza; split
+    · rename_i hg; exact fr (fun _ hi => hi.pushUser it hop hg)
+    · exact h
+  | urawstr it =>
+    show Good jid U NR (Conn.xmppSendRawString c it)
+    unfold Conn.xmppSendRawString; split
+    · rename_i hg; exact fr (fun _ hi => hi.pushUser it hop hg)
+    · exact h
+  | uraw it => exact fr (fun _ hi => hi.sendRawUser it hop.1 hop.2)
+  | udisc => exact fr (fun _ hi => hi.xmppDisconnect)
+  | setFlags f => exact h.setFlags f
+  | release =>
+    show Good jid U NR (Conn.release c)
+    unfold Conn.release; split
+    · exact h.connDisconnect
+    · exact h
+  | addUserHandlers =>
+    refine fr (fun _ hi => ?_)
+    refine Inv.addTimed ?_ .userTimed 1000 true (by simp) (fun e => by cases e)
+    exact hi.addHandler .userAll 0 none none none true (by simp) (fun s e _ => by cases e)
+
+theorem Good.exec (ops : List Op) (hops : ∀ op ∈ ops, OpOk U NR op) (h : Good jid U NR c) :
+    Good jid U NR (Conn.exec c ops) := by
+  unfold Conn.exec
+  induction ops generalizing c with
+  | nil => exact h
+  | cons op ops ih =>
+    rw [List.foldl_cons]
+    exact ih (fun o ho => hops o (List.mem_cons_of_mem _ ho)) (h.step op (hops op List.mem_cons_self))
+
+theorem good_fresh (jid pass : Option Bytes) (cert : Bool) (flags : Nat) :
+    Good jid U NR (fresh jid pass cert flags) := by
+  unfold fresh
+  refine Good.setFlags ?_ flags
+  refine ⟨{}, ⟨rfl, rfl, rfl, rfl, rfl, rfl⟩, ?_⟩
+  refine ⟨⟨rfl, fun a => absurd rfl a, fun a => absurd rfl a⟩, ?_, ?_, ?_, ?_, ?_, rfl⟩
+  · exact { q_ok := (fun _ a => nomatch a), smq_ok := (fun _ a => nomatch a), q_ht := (fun a => nomatch a),
+            q_n := (fun _ _ a => nomatch a), q_cg := fun _ => rfl, tx_ok := (fun _ a => nomatch a) }
+  · exact { att := (fun _ a => nomatch a), once := fun _ => Nat.zero_le _, zero := fun _ => rfl,
+            ucb := (fun _ a => nomatch a), neg := (fun _ a => nomatch a) }
+  · exact { tls_sec := (fun a => nomatch a), sasl := fun i a => (by rw [Nat.zero_testBit] at a; cases a),
+            comp := (fun a => nomatch a), bindR := (fun a => nomatch a), sessR := (fun a => nomatch a),
+            smS := (fun a => nomatch a), smB := (fun a => nomatch a),
+            nc := fun _ => ⟨rfl, rfl, rfl, rfl, rfl, rfl⟩, cg := (fun a => nomatch a),
+            nn1 := (fun a => nomatch a), nn2 := fun a => absurd rfl a, smE := (fun a => nomatch a) }
+  · exact { uidH := (fun _ a => nomatch a), nd := List.nodup_nil, uidT := (fun _ a => nomatch a),
+            uidX := (fun _ a => nomatch a), uidY := (fun _ a => nomatch a), xsOk := (fun _ a => nomatch a),
+            userH := (fun _ a => nomatch a), userT := (fun _ a => nomatch a), tfn := (fun _ a => nomatch a),
+            idk := (fun _ a => nomatch a), one := (fun _ a => nomatch a), phase := (fun _ a => nomatch a),
+            ohOk := ⟨fun a => (by rcases a with a | a <;> cases a), fun a => (by rcases a with a | a <;> cases a)⟩,
+            fr := fun a => (by rcases a with a | a <;> cases a), t1 := (fun _ a => nomatch a),
+            cgH := (fun a => nomatch a), raw := fun a => absurd rfl a, mbN := Nat.zero_le _,
+            lv := (fun _ _ a => nomatch a) }
+  · exact ⟨Or.inl rfl, rfl, fun _ => rfl, fun _ => rfl, (fun a => nomatch a), fun _ => rfl⟩
+
 end Strophe.Lemmas.ConnC03
